@@ -74,6 +74,16 @@ def _call(form, pipeline, out, K):
         return pipeline.func(out)(**K)
     if form == "full":
         return pipeline.run(out, full_output=True, kwargs=dict(K))
+    if form == "func-dict":
+        return pipeline.func(out).call_with_dict(dict(K))
+    if form == "func-full":
+        return pipeline.func(out).call_full_output(**K)
+    if form in ("positional", "positional-mixed"):
+        fo = pipeline.func(out)
+        order = list(fo.root_args)
+        if form == "positional":
+            return fo.call_with_root_args(*[K[r] for r in order])
+        return fo.call_with_root_args(*[K[r] for r in order[:1]], **{r: K[r] for r in order[1:]})
     raise AssertionError(form)
 
 
@@ -229,7 +239,15 @@ def run_one(v, idx, case, scratch, rng):
         for ctx, K in keyword_sets(case, out, rng):
             forms = ["call", "run", "full"]
             if ctx in ("roots", "defaults-omitted"):
-                forms.append("func")
+                forms += ["func", "func-dict"]
+            if ctx == "roots":
+                # positional call forms take every root argument of the output, in the order the wrapper itself reports
+                try:
+                    ra = set(pipeline.func(out).root_args)
+                except Exception:  # noqa: BLE001
+                    ra = None
+                if ra is not None and ra == set(K) and K:
+                    forms += ["positional", "positional-mixed"]
             for form in forms:
                 check_call(v, case, pipeline, log, out, K, form, ctx)
         # precedence probe: every parameter of the producing function supplied as keyword while bound/default/upstream
